@@ -8,7 +8,7 @@ mathematical modulo (i - s) mod n  (Lean's `%` on Int is the Euclidean / floor m
 /-- wrap a value known to lie in (-n, 2n) once into [0, n) -/
 def wrapOnce (d n : Int) : Int := if d < 0 then d + n else if d ≥ n then d - n else d
 
-theorem wrapOnce_eq_emod (d n : Int) (_hn : 0 < n) (hlo : -n < d) (hhi : d < 2 * n) :
+theorem wrapOnce_eq_emod (d n : Int) (_hn : 0 < n) (hlo : -n ≤ d) (hhi : d < 2 * n) :
     wrapOnce d n = d % n := by
   unfold wrapOnce
   by_cases h1 : d < 0
